@@ -223,6 +223,10 @@ pub fn close(a: f64, b: f64, rel: f64) -> bool {
     if a.is_nan() || b.is_nan() {
         return a.is_nan() && b.is_nan();
     }
+    if a.is_infinite() || b.is_infinite() {
+        // a == b was handled above: an infinity is close to nothing else
+        return false;
+    }
     let d = (a - b).abs();
     let m = a.abs().max(b.abs());
     d <= rel * m || d <= 1e-12
